@@ -38,6 +38,7 @@ type scenario struct {
 	BlameOnly bool     `json:"blame_only,omitempty"` // of those, only the delta / chi inconsistencies every honest signer must attribute
 	Pool      int      `json:"pool,omitempty"`       // > 0: the sessions run with a worker pool of that size (C05: a panic on a pool goroutine kills the process)
 	OnlyOps   []string `json:"only_ops,omitempty"`   // restrict the operator menu (quick-tier sizing of expensive scenarios)
+	StartOnly bool     `json:"start_only,omitempty"` // only the dealer-from-the-start deviations (special.go: startCases)
 }
 
 // world is a scenario made concrete: the session description plus what the oracles need.
@@ -226,6 +227,12 @@ func scenarios(check string) []scenario {
 			addPool("cmp-keygen", 2, 1, 2)
 			addPool("cmp-refresh", 2, 1, 2)
 		}
+	}
+	if check == "C03" || check == "C04" {
+		// a dealer that deviates from its first instruction (consistent wrong-degree / non-zero-constant polynomial);
+		// three parties and t = 1, because with t = n-1 a wrong degree cannot be observed
+		l = append(l, scenario{Name: "cmp-keygen/n3/t1/dealer-from-start", Proto: "cmp-keygen", N: 3, T: 1, Cost: 2, StartOnly: true})
+		l = append(l, scenario{Name: "cmp-refresh/n3/t1/dealer-from-start", Proto: "cmp-refresh", N: 3, T: 1, Cost: 2, StartOnly: true})
 	}
 	add("cmp-sign", 2, 1, 2) // the largest quick-tier catalogue comes last: an internal deadline, if ever hit, cuts only it
 	if vkit.Thorough() {
